@@ -239,9 +239,18 @@ def check(run, prog, tier):
     grow = [(b, i, n) for b, i, n in shb.calls() if n.get("fn") in ("realloc", "xrealloc") or "RESIZE" in (n.get("m") or ())]
     run.need(grow, "reallocation of heart_beats in set_heart_beat")
     gb, gi, gn = grow[0]
-    incs = [(b, i, n) for b, i, n in shb.nodes() if n.get("k") == "Asg" and n.get("op") == "+=" and strip(n["L"]).get("n") == "max_heart_beats" and (const_val(n["R"]) or 0) > 0]
+    def grows_capacity(n):
+        if n.get("k") != "Asg" or strip(n["L"]).get("n") != "max_heart_beats":
+            return False
+        if n.get("op") == "+=":
+            return (const_val(n["R"]) or 0) > 0
+        r = strip(n["R"])
+        if n.get("op") == "=" and r.get("k") == "Bin" and r.get("op") == "+":
+            return any(strip(a).get("n") == "max_heart_beats" and (const_val(b_) or 0) > 0 for a, b_ in ((r["L"], r["R"]), (r["R"], r["L"])))
+        return False
+    incs = [(b, i, n) for b, i, n in shb.nodes() if grows_capacity(n)]
     okg = any(shb.point_dominates((b.id, i), (gb.id, gi)) for b, i, n in incs) and "max_heart_beats" in show(gn)
-    run.ob("C11-c", "hb-growth", okg, "max_heart_beats += %s dominates `%s`" % (show(incs[0][2]["R"]) if incs else "?", show(gn)[:70]) if okg else "the list is 'grown' to an unchanged capacity",
+    run.ob("C11-c", "hb-growth", okg, "`%s` dominates `%s`" % (show(incs[0][2]) if incs else "?", show(gn)[:70]) if okg else "the list is 'grown' to an unchanged capacity",
            shb.file, gn.get("l"), "set_heart_beat", what="set_heart_beat reallocates heart_beats[] without increasing its capacity")
 
     round_init(run, prog, "C11-e")
